@@ -189,6 +189,44 @@ while True:
 	}
 }
 
+// delay makes node k hold every packet it originates towards the source host (time-exceeded, echo reply, port
+// unreachable, SYN-ACK, RST) for ms milliseconds: an NFQUEUE rule in its OUTPUT chain and a userspace program that
+// accepts each packet after the delay. (This image has no sch_netem.)
+func (l *lab) delay(k int, ms int) error {
+	verif := os.Getenv("VERIF_DIR")
+	if verif == "" {
+		verif = *fw.FlagVerif
+	}
+	for _, fam := range []string{"4", "6"} {
+		ipt, src := "iptables", l.addr4(1, false)
+		if fam == "6" {
+			ipt, src = "ip6tables", l.addr6(1, false)
+		}
+		la := labArgs([]string{"ip", "netns", "exec", l.ns[k], "python3", filepath.Join(verif, "tools", "nfq_delay.py"), "9", fmt.Sprint(ms), fam})
+		cmd := exec.Command(la[0], la[1:]...)
+		stdout, _ := cmd.StdoutPipe()
+		if err := cmd.Start(); err != nil {
+			return err
+		}
+		l.procs = append(l.procs, cmd)
+		buf := make([]byte, 16)
+		done := make(chan error, 1)
+		go func() { _, err := stdout.Read(buf); done <- err }()
+		select {
+		case err := <-done:
+			if err != nil {
+				return fmt.Errorf("delay program: %v", err)
+			}
+		case <-time.After(10 * time.Second):
+			return fmt.Errorf("delay program did not come up")
+		}
+		if _, err := run("ip", "netns", "exec", l.ns[k], ipt, "-A", "OUTPUT", "-d", src, "-j", "NFQUEUE", "--queue-num", "9"); err != nil {
+			return err
+		}
+	}
+	return nil
+}
+
 func (l *lab) sysctl(node int, kv string) {
 	run("ip", "netns", "exec", l.ns[node], "sysctl", "-qw", kv)
 }
@@ -347,20 +385,22 @@ func fmtC13(hops []c13Hop) string {
 }
 
 type c13Cfg struct {
-	name    string
-	n       int
-	silent  int
-	noSack  bool
-	ecn     bool // the source host requests ECN: the target's SYN-ACK carries ECE
-	unreach int  // router that rejects everything for the destination (IPv4: REJECT rule, IPv6: `unreachable` route; 0 = none): it answers every probe that gets that far with destination-unreachable
-	run     func(l *lab) (got c13Out, problem string)
+	name      string
+	n         int
+	silent    int
+	noSack    bool
+	ecn       bool // the source host requests ECN: the target's SYN-ACK carries ECE
+	delayMs   int  // every router (and, with delayDest, the destination host) holds what it sends towards the source for this long (NFQUEUE + tools/nfq_delay.py): a path with real latency
+	delayDest bool
+	unreach   int // router that rejects everything for the destination (IPv4: REJECT rule, IPv6: `unreachable` route; 0 = none): it answers every probe that gets that far with destination-unreachable
+	run       func(l *lab) (got c13Out, problem string)
 }
 
 func checkC13() fw.Check {
 	return fw.Check{
 		Prop:  "C13",
 		Level: "exploration",
-		Rule: "the CLI binary (built from the working tree without the verif tag) and a library caller are run inside a chain of network namespaces src - R1..RN - dst whose routers are plain Linux kernels (ip_forward, ICMP rate limiting off): path lengths N, protocol in {icmp, udp, tcp syn, tcp sack, tcp prefer_sack} (+ IPv6 for icmp/udp), destination port open (python listener) / closed / SACK disabled (net.ipv4.tcp_sack=0), one router with ICMP generation suppressed, first TTL > 1 with the explicit destination flag, several traceroutes at once (parallel CLI processes and one multi-query request); every reply comes from the kernel's IP/ICMP/TCP stack; oracle: the hop chain equals [R1..RN, destination] exactly, RTT >= 0, destination flag only on the last hop, closed port reached via RST, silent router as empty hop, SACK-less target fails (sack) / falls back (prefer_sack). After a mismatch the configuration is repeated (up to 5 runs): 3 mismatches are a verdict, 3 matches are kernel timing noise; a CLI watchdog makes the case inconclusive. " +
+		Rule: "the CLI binary (built from the working tree without the verif tag) and a library caller are run inside a chain of network namespaces src - R1..RN - dst whose routers are plain Linux kernels (ip_forward, ICMP rate limiting off): path lengths N, protocol in {icmp, udp, tcp syn, tcp sack, tcp prefer_sack} (+ IPv6 for icmp/udp), destination port open (python listener) / closed / SACK disabled (net.ipv4.tcp_sack=0), one router with ICMP generation suppressed, first TTL > 1 with the explicit destination flag, several traceroutes at once (parallel CLI processes and one multi-query request); every reply comes from the kernel's IP/ICMP/TCP stack; oracle: the hop chain equals [R1..RN, destination] exactly, RTT >= 0, destination flag only on the last hop, closed port reached via RST, silent router as empty hop, SACK-less target fails (sack) / falls back (prefer_sack); paths with real latency (every node holds its replies for 400 ms through NFQUEUE and a userspace delay program, per-probe timeout 500 ms): same chain, and every RTT and end-to-end sample within [400 ms, 850 ms]. After a mismatch the configuration is repeated (up to 5 runs): 3 mismatches are a verdict, 3 matches are kernel timing noise; a CLI watchdog makes the case inconclusive. " +
 			"distinct_nontrivial counts distinct (N, protocol, destination state, special) configurations whose chain matched",
 		Workers:       4,
 		MinNontrivial: 8,
@@ -486,6 +526,48 @@ func checkC13() fw.Check {
 						return o, "expected one run"
 					}
 					return o, judgeRun(o.runs[0], l.expectChain(1, v6)[:m], 1, false)
+				}})
+			}
+			// a path with real latency: every router (and the destination host, except for SACK whose handshake has its own
+			// timeout) holds what it sends back for 400 ms; the per-probe timeout is 500 ms, so every reply arrives inside its
+			// probe's listening window although probes sent later than the first one answer after "first send + timeout".
+			// Oracle: the chain as always, and every delayed hop's RTT lies in [delay, delay + 450 ms] - a reply cannot have
+			// been read before the router released it, and the tool polls every 100 ms.
+			latency := [][]string{{"icmp", "1", "-P", "icmp"}, {"tcp-syn", "1", "-P", "tcp", "-p", "8080", "--tcp-method", "syn"}, {"udp6", "1", "-P", "udp", "--ipv6"}}
+			if tier == "thorough" {
+				latency = append(latency, []string{"udp", "1", "-P", "udp"}, []string{"tcp-sack", "0", "-P", "tcp", "-p", "8080", "--tcp-method", "sack"},
+					[]string{"icmp6", "1", "-P", "icmp", "--ipv6"}, []string{"tcp-prefer-sack-closed", "1", "-P", "tcp", "-p", "8099", "--tcp-method", "prefer_sack"})
+			}
+			for _, pa := range latency {
+				pa := pa
+				const delay = 400
+				cfgs = append(cfgs, c13Cfg{name: fmt.Sprintf("latency-%s/N4", pa[0]), n: 4, delayMs: delay, delayDest: pa[1] == "1", run: func(l *lab) (c13Out, string) {
+					v6 := strings.HasSuffix(pa[0], "6")
+					o := l.cli(append(append([]string{}, pa[2:]...), "-q", "1", "-Q", "1", "-m", "10", "--timeout", "500", l.dest(v6))...)
+					if o.err != "" {
+						return o, "CLI failed: " + o.err
+					}
+					if len(o.runs) != 1 {
+						return o, "expected one run"
+					}
+					if p := judgeRun(o.runs[0], l.expectChain(1, v6), 1, false); p != "" {
+						return o, p
+					}
+					for i, h := range o.runs[0] {
+						if i == len(o.runs[0])-1 && pa[1] != "1" {
+							continue
+						}
+						if h.RTT < delay {
+							return o, fmt.Sprintf("ttl %d reports an RTT of %.3f ms although %s held its reply for %d ms", h.TTL, h.RTT, h.IP, delay)
+						}
+						if h.RTT > delay+450 {
+							return o, fmt.Sprintf("ttl %d reports an RTT of %.3f ms; %s held its reply for %d ms", h.TTL, h.RTT, h.IP, delay)
+						}
+					}
+					if pa[1] == "1" && (len(o.rtts) != 1 || o.rtts[0] < delay || o.rtts[0] > delay+450) {
+						return o, fmt.Sprintf("end-to-end samples %v; the destination held its reply for %d ms", o.rtts, delay)
+					}
+					return o, ""
 				}})
 			}
 			// the target is unreachable behind router 2 (reject rule / unreachable route): that router answers every probe that
@@ -727,6 +809,18 @@ func runC13(c *fw.Ctx, id, tag string, cfg c13Cfg) {
 			o := l.cli(append(args, l.dest(v6))...)
 			if len(o.runs) == 1 && len(o.runs[0]) > 0 && o.runs[0][len(o.runs[0])-1].IP == l.dest(v6) {
 				break // the destination answered: every neighbour entry along the path is resolved
+			}
+		}
+	}
+	if cfg.delayMs > 0 {
+		last := l.n
+		if cfg.delayDest {
+			last = l.n + 1
+		}
+		for k := 1; k <= last; k++ {
+			if err := l.delay(k, cfg.delayMs); err != nil {
+				c.Inconclusive(fmt.Sprintf("%s: cannot install the delay on node %d: %v", id, k, err))
+				return
 			}
 		}
 	}
